@@ -40,6 +40,8 @@ impl<'a> CharCounter<'a>
 	}
 	
 	
+	/// `index` is a byte index into the source (as carried by
+	/// `diagn::Span`); the returned column counts characters.
 	pub fn get_line_column_at_index(
 		&self,
 		index: usize)
@@ -48,52 +50,54 @@ impl<'a> CharCounter<'a>
 		let mut line = 0;
 		let mut column = 0;
 		
-		let mut i = 0;
-		while i < index && i < self.chars.len()
+		for (byte_index, c) in self.src.char_indices()
 		{
-			if self.chars[i] == '\n'
+			if byte_index >= index
+				{ break; }
+
+			if c == '\n'
 			{
 				line += 1;
 				column = 0;
 			}
 			else
 				{ column += 1; }
-			
-			i += 1;
 		}
 		
 		(line, column)
 	}
 	
 	
+	/// Returns the byte range of the given line
+	/// (including its line break), suitable for `get_excerpt`.
 	pub fn get_index_range_of_line(
 		&self,
 		line: usize)
 		-> (usize, usize)
 	{
+		let bytes = self.src.as_bytes();
+
 		let mut line_count = 0;
 		let mut line_begin = 0;
 		
-		while line_count < line && line_begin < self.chars.len()
+		while line_count < line && line_begin < bytes.len()
 		{
 			line_begin += 1;
 			
-			if self.chars[line_begin - 1] == '\n'
+			if bytes[line_begin - 1] == b'\n'
 				{ line_count += 1; }
 		}
 		
 		let mut line_end = line_begin;
-		while line_end < self.chars.len()
+		
+		while line_end < bytes.len()
 		{
 			line_end += 1;
 			
-			if self.chars[line_end - 1] == '\n'
+			if bytes[line_end - 1] == b'\n'
 				{ break; }
 		}
 		
-		(
-			line_begin.try_into().unwrap(),
-			line_end.try_into().unwrap()
-		)
+		(line_begin, line_end)
 	}
 }
